@@ -426,6 +426,10 @@ func (x *Exec) calleeModSet(cc *ssa.CallCommon, sets map[*ssa.Function]*modSet) 
 	}
 	if callee := cc.StaticCallee(); callee != nil {
 		key := funcKey(callee)
+		if wk := walkKey(key, cc); wk != "" && x.Lib.Funcs[wk] != nil {
+			x.contractMods(x.Lib.Funcs[wk], m)
+			return m
+		}
 		if con := x.Lib.Funcs[key]; con != nil {
 			x.contractMods(con, m)
 			if s, ok := sets[callee]; ok && !con.Extern && con.Trusted == "" {
@@ -480,6 +484,19 @@ func (x *Exec) contractMods(con *FuncContract, m *modSet) {
 	if con.Allocates {
 		m.allocs = true
 	}
+}
+
+// walkKey: a call of a higher-order library function (filepath.Walk) with a function literal of /repo is
+// looked up under "<callee>[<literal>]": its summary is stated per literal (trusted, T-walk), the literal's
+// per-visit contract is proved. The variables the literal captures are passed as further arguments.
+func walkKey(key string, cc *ssa.CallCommon) string {
+	if key != "filepath.Walk" || len(cc.Args) != 2 {
+		return ""
+	}
+	if mc, ok := cc.Args[1].(*ssa.MakeClosure); ok {
+		return key + "[" + funcKey(mc.Fn.(*ssa.Function)) + "]"
+	}
+	return ""
 }
 
 func ifaceMethodKey(cc *ssa.CallCommon) string {
